@@ -84,6 +84,15 @@ func validate(key security.Key, req string) bool {
 	return ok
 }
 
+// licences whose contract carries signature 0 (an "unsigned" contract must still pin the key's signature)
+func unsigned() []license.License {
+	a := license.NewV1()
+	a.Sign = 0
+	b := license.NewV2()
+	b.Sign = 0
+	return []license.License{a, b}
+}
+
 func main() {
 	cfg = vlib.ParseFlags()
 	r := cfg.Rng
@@ -164,7 +173,7 @@ func main() {
 
 	// ---- B. Authorize through a real service, one per licence version ----
 	now := time.Now().Unix()
-	for _, lic := range []license.License{license.NewV1(), license.NewV2(), license.NewV3()} {
+	for _, lic := range append([]license.License{license.NewV1(), license.NewV2(), license.NewV3()}, unsigned()...) {
 		c := config.NewDefault().(*config.Config)
 		c.License = lic.String()
 		c.Cluster = nil
